@@ -5,6 +5,7 @@ use serde_json::Value;
 pub mod codec;
 pub mod envelope;
 pub mod merkle;
+pub mod server;
 pub mod sign;
 
 pub struct PropDef {
@@ -79,6 +80,46 @@ pub fn all() -> Vec<PropDef> {
             timeout_s: t_std,
             run: envelope::run,
             replay: envelope::replay,
+        },
+        PropDef {
+            id: "C02",
+            level: "exploration",
+            rule: "proptest scenarios: batch_size 1..=64, 1..=6 consecutive steps of 1..=130 datagrams (standard classic/IETF requests of 1024..=1500 bytes, with/without SRV, a few invalid ones) on one long-lived in-process Server, fault 0 and 1..=50; grid batch_size x burst size; oracle = strict reference verifier (own codec, sha2 Merkle climb with the protocol's node width, ring Ed25519) matched one-to-one per socket, batch reconstruction from identical SREP bytes (distinct INDX < m, PATH = ceil(log2 m) nodes), fault mode: verdict for every reply, no half-valid reply, failing share within 6 sigma of p over >= 2400 replies. Non-trivial = verified reply from a batch with m >= 2 (non-empty path); distinct by (protocol, m, index, step class, SREP)",
+            assumptions: &["loopback UDP preserves per-socket order and does not drop below the raised receive-buffer limits", "refproto.rs strict verifier encodes the Google and draft-13 texts (leaf = nonce / whole request packet, node width 64 / 32)", "online keys, Grease PRNG and kernel timing are not pinned; verdicts do not depend on them except the 6-sigma statistic (false-alarm probability ~2e-9 per run)"],
+            shards: s16,
+            timeout_s: t_std,
+            run: |c| server::run(server::Which::C02, c),
+            replay: |c, s, v| server::replay(server::Which::C02, c, s, v),
+        },
+        PropDef {
+            id: "C07",
+            level: "exploration",
+            rule: "proptest scenarios of datagrams 0..=65507 bytes (standard requests, every aligned nonce length, truncated/extended by 1..=8 bytes, resized, field mutants: NONC removed/renamed, tag order, offsets, frame length +-k, magic, VER lists, SRV, header words/bits, junk, empty) in batches up to 70 at batch_size 1..=64, plus a grid of nonce lengths x protocol x batch depth; oracle per socket after the sentinel: replies only attributable (protocol + nonce echo) to well-formed 1024..=1500-byte requests of that socket, and len(reply) <= len(request) under the worst-case pairing. Non-trivial = well-formed datagram within 8 bytes of a size limit, in-range non-request, or answered request with non-standard nonce; distinct by bytes",
+            assumptions: &["classifier in refproto.rs is generous (only-if direction only): a server stricter than it is never flagged", "no-reply is asserted only after the sentinel's reply proved the datagram was consumed"],
+            shards: s16,
+            timeout_s: t_std,
+            run: |c| server::run(server::Which::C07, c),
+            replay: |c, s, v| server::replay(server::Which::C07, c, s, v),
+        },
+        PropDef {
+            id: "C08",
+            level: "exploration",
+            rule: "proptest scenarios x log level (one level per worker process: Off, Error, Warn, Info, Debug, Trace with a capturing logger that formats every record) x fault 0/1..=50 x batch_size 1..=64 x client_stats; datagram families of C07 plus empty datagrams, 65507-byte datagrams, empty and oversized nonces, repeated datagrams; oracle = process_events never unwinds, the sentinel is answered (never wedged) and its reply passes the strict verifier (fault 0) or a valid sentinel reply arrives within 40 attempts (faults on). Non-trivial = scenario with a near-valid mutant at level >= Debug; distinct by (level, datagrams)",
+            assumptions: &["the harness runs process_events on its (named) main thread; a panic counts only when it unwinds out of process_events", "socket-level errors (ICMP, ENOBUFS) are not injected"],
+            shards: |_| 18,
+            timeout_s: t_std,
+            run: |c| server::run(server::Which::C08, c),
+            replay: |c, s, v| server::replay(server::Which::C08, c, s, v),
+        },
+        PropDef {
+            id: "C09",
+            level: "exploration",
+            rule: "proptest histories: 2..=48 client sockets, 1..=4 steps of 1..=130 sends (standard classic / standard IETF / clearly invalid datagrams; several requests per socket; nonces shared between sockets from a 6-nonce pool) at batch_size 1..=64; oracle per socket and step: #standard <= #replies <= #answerable, one-to-one matching of replies to the socket's own requests under the strict verifier in the request's protocol, every standard request matched, exactly one sentinel reply. Non-trivial = step mixing classic and IETF across >= 2 sockets, or burst > batch_size; distinct by (batch_size, burst, sends)",
+            assumptions: &["requests that are well-formed but non-standard are never generated here, so 'must be answered' is only asserted where every reading of the protocol agrees", "loopback does not drop (receive buffers raised)"],
+            shards: s16,
+            timeout_s: t_std,
+            run: |c| server::run(server::Which::C09, c),
+            replay: |c, s, v| server::replay(server::Which::C09, c, s, v),
         },
     ]
 }
